@@ -1,6 +1,7 @@
-(* C01 (partial, proof level): json.Marshal is byte-for-byte encoding/json.Marshal -- the scalar core.
-   The reflection-driven encoder as a whole is decided by differential execution only; proved here, for EVERY
-   input, are the string escaping and the integer formatting that every encoder path ends in. *)
+(* C01 (partial, proof level): json.Marshal is byte-for-byte encoding/json.Marshal.
+   First the scalar core: proved for EVERY input are the string escaping and the integer formatting that every encoder
+   path ends in. Then (second half of this file) the structural encoder over a typed value tree. Outside that type
+   universe the reflection-driven encoder is decided by differential execution only. *)
 From Verif Require Import Base.GoInt Json.Spec Json.ValidProofs Json.StrSpec Json.NumSpec
   Json.StrEncProofs Json.StrSpecProofs Json.StrLinkProofs Json.NumProofs Json.FloatModel Json.FloatSpec Json.FloatProofs.
 
@@ -116,3 +117,42 @@ Proof. exact FloatProofs.std_quoted. Qed.
    float64 / float32 values nearest to 10^-6 and 10^21 *)
 Theorem c01_float_thresholds_nearest : thresholds_nearest_statement.
 Proof. exact FloatProofs.thresholds_nearest. Qed.
+
+(* ---------------------------------------------------------------------------------------------------------------
+   STRUCTURAL PART: json.Marshal over a typed value tree (bool, sized integers, strings, pointers, slices, arrays,
+   maps with string keys, structs with omitempty). The model (Json/TreeModel.v jenc) is hand-written after
+   json/encode.go and tied to /repo and to encoding/json by the j.tree.enc cases (harness/c01tree.go) on every run;
+   its strings and integers are std_escape and z_to_dec, which the theorems above prove equal to the machine-translated
+   encodeString and to formatInteger. The decoder used in the round trips is the model of json.Unmarshal of C02.
+   --------------------------------------------------------------------------------------------------------------- *)
+From Verif Require Import Json.TreeModel Json.TreeSpec Json.TreeDecSpec Json.TreeArrSpec Json.TreeShapeSpec
+  Json.TreeObjSpec Json.TreeFuelSpec.
+From Verif Require Json.TreeProofs Json.TreeEncProofs Json.TreeDecProofs Json.TreeArrProofs Json.TreeShapeProofs
+  Json.TreeObjProofs Json.TreeFuelProofs.
+
+(* what Marshal writes is the token encoder without white space *)
+Theorem c01tree_jenc_no_ws : jenc_no_ws_statement.
+Proof. exact TreeProofs.jenc_no_ws. Qed.
+
+(* the round trip on what Marshal writes *)
+Theorem c01tree_roundtrip : tree_roundtrip_statement.
+Proof. exact TreeProofs.tree_roundtrip. Qed.
+
+(* the normalisation is the identity on stable values (well-formed UTF-8 strings, no omitempty field holding an empty
+   non-nil slice or map, no non-nil pointer to a nil pointer, slice or map) *)
+Theorem c01tree_norm_id : tree_norm_id_statement.
+Proof. exact TreeProofs.tree_norm_id. Qed.
+Theorem c01tree_roundtrip_id : tree_roundtrip_id_statement.
+Proof. exact TreeProofs.tree_roundtrip_id. Qed.
+
+(* equal encodings: equal normalised values; on stable values: equal values *)
+Theorem c01tree_enc_injective : tree_enc_injective_statement.
+Proof. exact TreeProofs.tree_enc_injective. Qed.
+Theorem c01tree_enc_injective_id : tree_enc_injective_id_statement.
+Proof. exact TreeProofs.tree_enc_injective_id. Qed.
+
+(* the encoding, with any white space between its tokens, is a JSON text of the RFC 8259 grammar (Json/Grammar.v) *)
+Theorem c01tree_enc_valid : tree_enc_valid_statement.
+Proof. exact TreeEncProofs.tree_enc_valid. Qed.
+Theorem c01tree_enc_ws_valid : tree_enc_ws_valid_statement.
+Proof. exact TreeEncProofs.tree_enc_ws_valid. Qed.
